@@ -354,6 +354,10 @@ func runT(r *kernel.Run, s TSpec) *tResult {
 			res.Errors = append(res.Errors, sl.errs...)
 		}
 		res.Switches += len(sc.Switches())
+		r.Stats().Faults["preemption(context switch at a yield point)"] += len(sc.Switches())
+		if h := sc.BuggifyHits(); h > 0 {
+			r.Stats().Faults["buggify:forced-cache-miss"] += h
+		}
 		res.SwitchH = append(res.SwitchH, sc.SwitchHash())
 		for k, v := range sc.YieldSites() {
 			res.Sites[k] += v
